@@ -312,6 +312,33 @@ func (r *rewriter) goStmt(n *ast.GoStmt) ast.Stmt {
 func (r *rewriter) selectStmt(n *ast.SelectStmt) ast.Stmt {
 	r.needSched = true
 	r.stats["select"]++
+	// the non-blocking send idiom: select { case ch <- v: A  default: B }  ->  if vsched.TrySend(ch, v) { A } else { B }
+	if len(n.Body.List) == 2 {
+		var send *ast.SendStmt
+		var sendBody, defBody []ast.Stmt
+		hasDef := false
+		for _, c := range n.Body.List {
+			cc := c.(*ast.CommClause)
+			if cc.Comm == nil {
+				hasDef, defBody = true, cc.Body
+			} else if ss, ok := cc.Comm.(*ast.SendStmt); ok {
+				send, sendBody = ss, cc.Body
+			}
+		}
+		if hasDef && send != nil {
+			for _, st := range append(append([]ast.Stmt{}, sendBody...), defBody...) {
+				ast.Inspect(st, func(x ast.Node) bool {
+					if b, ok := x.(*ast.BranchStmt); ok && b.Tok == token.BREAK && b.Label == nil {
+						r.errorf(b.Pos(), "unsupported: unlabelled break inside a non-blocking send select")
+					}
+					return true
+				})
+			}
+			r.stats["trysend"]++
+			cond := &ast.CallExpr{Fun: sel("vsched", "TrySend"), Args: []ast.Expr{r.expr(send.Chan), r.expr(send.Value)}}
+			return &ast.IfStmt{Cond: cond, Body: &ast.BlockStmt{List: r.stmts(sendBody)}, Else: &ast.BlockStmt{List: r.stmts(defBody)}}
+		}
+	}
 	var pre []ast.Stmt
 	var chans []ast.Expr
 	hasDefault := false
